@@ -29,6 +29,7 @@ import common as C
 import progs
 import ir2print as P
 
+EXTRA_MODELS = [("scala", "printcorr_scala")]
 OPTS = {"cast_numbers": False}
 
 
@@ -383,8 +384,16 @@ def run(tier, seed, replay=None):
                 rep.violation("correspondence", "the history replayed on the model (state threaded through 8 translations) gives %s, "
                               "expected ([], true)" % val, dict(broken="history_mismatches", value=val), no_input=True)
     C.clean_cases("c11")
+    # further modelled translators (own model, theorem files and correspondence each)
+    extra_cov = {}
+    for lang_, modname in EXTRA_MODELS:
+        mod = __import__(modname)
+        part = mod.run_part(rep, tier, seed, "C11")
+        proof_ok = C.proof_part_extra(rep, part["proof"]) and proof_ok
+        extra_cov[lang_] = {k: v for k, v in part.items() if k not in ("proof", "obligations", "discharged", "print_assumptions")}
     if not proof_ok and not rep.violations:
         rep.violation("proof", rep.proof_broken, dict(broken=rep.proof_broken), no_input=True)
+    rep.add(further_models=extra_cov)
     rep.add(programs=len(variants), directed_trees=len(fuzz), directed_trees_rejected_by_impl=fuzz_crash,
             evaluations=compared, traces_validated_against_impl=compared, model_impl_mismatches=mism,
             distinct_nontrivial=len({t for o in variants + fuzz for tx in o.texts.values() for t in tx}),
